@@ -752,6 +752,20 @@ impl<V: DeepClone> DeepClone for HashMap<Name, V> {
     }
 }
 
+/// Reads the value of a dictionary entry that may be left out: a reference to a missing object is a
+/// reference to null (ISO 32000-1, 7.3.10) and gives `None`, like an absent entry.
+pub fn from_entry<T: Object>(p: Primitive, resolve: &impl Resolve) -> Result<Option<T>> {
+    let referenced = match p {
+        Primitive::Reference(r) => Some(r.id),
+        _ => None
+    };
+    match T::from_primitive(p, resolve) {
+        Ok(t) => Ok(Some(t)),
+        Err(ref e) if referenced.map_or(false, |id| e.is_missing_object(id)) => Ok(None),
+        Err(e) => Err(e)
+    }
+}
+
 impl<T: Object> Object for Option<T> {
     fn from_primitive(p: Primitive, resolve: &impl Resolve) -> Result<Self> {
         match p {
